@@ -11,6 +11,7 @@ import (
 	"testing"
 	"time"
 
+	"github.com/plgd-dev/go-coap/v3/message"
 	"github.com/plgd-dev/go-coap/v3/message/pool"
 	"github.com/plgd-dev/go-coap/v3/options"
 	udpClient "github.com/plgd-dev/go-coap/v3/udp/client"
@@ -35,6 +36,8 @@ type Request struct {
 	SepDelayMs int    `json:"sepDelayMs"`
 	DeadlineMs int    `json:"deadlineMs"` // caller's context deadline, relative to the call
 	CancelMs   int    `json:"cancelMs"`   // caller cancels at this offset (0 = never)
+	// Payload > 0: the request is a POST with a body of this many bytes (else a GET without one)
+	Payload int `json:"payload,omitempty"`
 }
 
 type Scenario struct {
@@ -82,7 +85,7 @@ func Exec(t *testing.T, sc Scenario, r *evid.Run) *evid.Failure {
 			// write an acknowledgement, which is a policy of its own)
 			link.A.FailMatch = func(b []byte) bool {
 				m, ok := peer.ParseDatagram(b)
-				return ok && m.Type == peer.CON && m.Code == 1
+				return ok && m.Type == peer.CON && (m.Code == 1 || m.Code == 2)
 			}
 			link.A.FailWriteAt(sc.FailWrite)
 		}
@@ -113,7 +116,13 @@ func Exec(t *testing.T, sc Scenario, r *evid.Run) *evid.Failure {
 			wg.Add(1)
 			go func(i int) {
 				defer wg.Done()
-				req, err := cli.NewGetRequest(ctx, fmt.Sprintf("/r%d", i))
+				var req *pool.Message
+				var err error
+				if q.Payload > 0 {
+					req, err = cli.NewPostRequest(ctx, fmt.Sprintf("/r%d", i), message.TextPlain, bytes.NewReader(bytes.Repeat([]byte{byte('a' + i)}, q.Payload)))
+				} else {
+					req, err = cli.NewGetRequest(ctx, fmt.Sprintf("/r%d", i))
+				}
 				if err != nil {
 					mu.Lock()
 					outs[i] = outcome{returned: true, at: time.Since(start), err: err}
@@ -154,7 +163,7 @@ func Exec(t *testing.T, sc Scenario, r *evid.Run) *evid.Failure {
 			sent := link.Sent(0)
 			for ; seen < len(sent); seen++ {
 				m, ok := peer.ParseDatagram(sent[seen])
-				if !ok || m.Type != peer.CON || m.Code != 1 || len(m.Token) != 2 || m.Token[0] != 0xC6 {
+				if !ok || m.Type != peer.CON || (m.Code != 1 && m.Code != 2) || len(m.Token) != 2 || m.Token[0] != 0xC6 {
 					continue
 				}
 				i := int(m.Token[1]) - 1
@@ -263,7 +272,7 @@ func Exec(t *testing.T, sc Scenario, r *evid.Run) *evid.Failure {
 			if !ok {
 				return evid.Failf("retx/garbage-on-wire", sc, "the client sent an undecodable datagram %x", rec.Data)
 			}
-			if m.Type == peer.CON && m.Code == 1 && bytes.Equal(m.Token, tok(i)) {
+			if m.Type == peer.CON && (m.Code == 1 || m.Code == 2) && bytes.Equal(m.Token, tok(i)) {
 				copies = append(copies, rec)
 			}
 		}
@@ -388,7 +397,7 @@ func Exec(t *testing.T, sc Scenario, r *evid.Run) *evid.Failure {
 		if dense && prev >= 2*ackT && time.Duration(sc.Reqs[0].DeadlineMs)*time.Millisecond > limit {
 			cnt := 0
 			for _, rec := range wire {
-				if m, ok := peer.ParseDatagram(rec.Data); ok && rec.Dir == 0 && m.Type == peer.CON && m.Code == 1 {
+				if m, ok := peer.ParseDatagram(rec.Data); ok && rec.Dir == 0 && m.Type == peer.CON && (m.Code == 1 || m.Code == 2) {
 					cnt++
 				}
 			}
@@ -426,6 +435,9 @@ func gen(t *rapid.T) Scenario {
 			ReplyLost:  rapid.SliceOfN(rapid.Bool(), 0, 7).Draw(t, "replyLost"),
 			DelayMs:    rapid.SampledFrom([]int{0, 1, 10, ack / 2, ack - 1, ack + 1}).Draw(t, "delay"),
 			SepDelayMs: rapid.SampledFrom([]int{0, 5, ack, 3 * ack}).Draw(t, "sepdelay"),
+		}
+		if rapid.IntRange(0, 2).Draw(t, "post") == 0 {
+			q.Payload = rapid.SampledFrom([]int{1, 9, 200}).Draw(t, "payload")
 		}
 		q.DeadlineMs = rapid.SampledFrom([]int{ack / 2, 2 * ack, (sc.MaxRetransmit + 3) * ack, (sc.MaxRetransmit + 8) * ack}).Draw(t, "deadline")
 		if q.DeadlineMs < 10 {
